@@ -265,6 +265,7 @@ def gift(plan, src, dst, name='GIFT', inc_src=True, inc_dst=True, amount=5.0):
         c.model.RegisterCashFlow(s, c[dst], name, inc_src, inc_dst)
     plan.post(post)
     plan.features.add('gift')
+    plan.meta.setdefault('gifts', []).append((src, dst, name))
 
 
 def imports(plan, cc_buyer, cc_seller, mu=0.2):
@@ -279,6 +280,7 @@ def imports(plan, cc_buyer, cc_seller, mu=0.2):
         c[cc_seller + '.BUS'].AddMarket(mk)
     plan.post(post)
     plan.features.add('imports')
+    plan.meta.setdefault('imports', []).append((cc_buyer, cc_seller))
 
 
 def reg_onecountry(plan, cc, currency=None):
